@@ -25,7 +25,7 @@ def run(ctx):
              {"op": "knob", "b": [], "knob": 2, "expect_ok": True}, call("transform", [4, 1])]]
     only = os.environ.get("VERIF_ADAPTERS")
     jobs = []
-    per = ctx.pick(2, 14)
+    per = ctx.pick(2, 7)
     for name, cls in sorted(all_adapters().items()):
         if only and not any(o in name for o in only.split(",")):
             continue
